@@ -364,8 +364,7 @@ impl<S: RSSupport> SelectQuad for RSQVector<S> {
     #[inline]
     unsafe fn select_unchecked(&self, symbol: u8, i: usize) -> usize {
         debug_assert!(symbol <= 3);
-        debug_assert!(i > 0);
-        debug_assert!(self.occs(symbol) <= Some(i));
+        debug_assert!(self.occs(symbol) > Some(i));
 
         self.select(symbol, i).unwrap()
     }
